@@ -106,6 +106,7 @@ func setup() {
 		if err != nil {
 			panic(err)
 		}
+		s.VerifStopTimers() // long-lived session: no wall-clock purge, no NIC monitor SIGTERM
 		session = s
 	})
 }
